@@ -1,6 +1,7 @@
 // K-C14 (selection part): correspondence harness for IndicatorBasedSelection<Indicator> and
 // ElitistSelection on integer populations (exact).  One op per stdin line, one observation line
-// per op (format of lean/Driver/C14.lean).  Oracle: exactly mu individuals selected; no selected
+// per op (format of lean/Driver/C14.lean).  The flags of the partially selected front are printed exactly for the
+// indicators with an exact model (hv with reference, hv without reference in 2-D, crowd, eps) and as '?' otherwise.  Oracle: exactly mu individuals selected; no selected
 // individual has a worse non-domination rank than an unselected one; ranks satisfy the definition.
 #include <shark/Algorithms/DirectSearch/Individual.h>
 #include <shark/Algorithms/DirectSearch/Operators/Selection/IndicatorBasedSelection.h>
@@ -34,7 +35,7 @@ static bool weakDom(RealVector const& p, RealVector const& q){
 static bool strictDom(RealVector const& p, RealVector const& q){ return weakDom(p,q) && !weakDom(q,p); }
 
 template<class Selection>
-static void runSelection(Selection& sel, std::vector<Ind>& pop, std::size_t mu, std::ostream& os, std::string& orc){
+static void runSelection(Selection& sel, std::vector<Ind>& pop, std::size_t mu, std::ostream& os, std::string& orc, bool exact = false){
 	std::size_t n = pop.size();
 	sel(pop, mu);
 	// canonical observation: ranks; flags outside the partially selected front; number kept in it
@@ -45,7 +46,8 @@ static void runSelection(Selection& sel, std::vector<Ind>& pop, std::size_t mu, 
 	for(std::size_t i = 0; i != n; ++i) os << (i ? "," : "") << pop[i].rank();
 	os << "] flags=";
 	for(std::size_t i = 0; i != n; ++i){
-		if(pop[i].rank() == r){ os << "?"; if(pop[i].selected()) ++keep; }
+		if(pop[i].rank() == r && pop[i].selected()) ++keep;
+		if(pop[i].rank() == r && !exact) os << "?";
 		else os << (pop[i].selected() ? "1" : "0");
 	}
 	os << " keep=" << keep;
@@ -72,22 +74,29 @@ int main(){
 		if(t.empty()){ std::cout << "\n"; continue; }
 		std::ostringstream os; std::string orc;
 		try{
-		if(t[0] == "sel" && t.size() >= 5 && parseInts(t, 2, a) && a.size() >= 3 && a.size() == 3 + (std::size_t)(a[1]*a[2])){
+		// `sel hvr mu m n r(m) pts`: hypervolume indicator with the explicit reference point r (points may lie beyond it)
+		bool hvr = t[0] == "sel" && t.size() >= 5 && t[1] == "hvr";
+		if(t[0] == "sel" && t.size() >= 5 && parseInts(t, 2, a) && a.size() >= 3 && a.size() == 3 + (std::size_t)(a[1]*a[2]) + (hvr ? (std::size_t)a[1] : 0)){
 			std::string ind = t[1];
 			std::size_t mu = a[0], m = a[1], n = a[2];
+			RealVector given(m, 0.0);
+			if(hvr){ for(std::size_t d = 0; d != m; ++d) given(d) = (double)a[3 + d]; a.erase(a.begin() + 3, a.begin() + 3 + m); }
 			std::vector<Ind> pop(n);
 			RealVector ref(m, -1e100);
 			for(std::size_t i = 0; i != n; ++i){
 				RealVector v(m);
 				for(std::size_t d = 0; d != m; ++d){ v(d) = (double)a[3 + i*m + d]; ref(d) = std::max(ref(d), v(d) + 1); }
 				pop[i].penalizedFitness() = v; pop[i].unpenalizedFitness() = v;
-				pop[i].selected() = (i % 2 == 0);        // stale flags / ranks must not matter
+				// flags / ranks before the call must not matter: fresh container (all false), re-used container with
+				// stale marks (alternating), or all true — chosen by the op
+				pop[i].selected() = ((n + mu) % 3 == 0) ? false : (((n + mu) % 3 == 1) ? (i % 2 == 0) : true);
 				pop[i].rank() = 7;
 			}
-			if(ind == "hv"){ IndicatorBasedSelection<HypervolumeIndicator> s; s.indicator().setReference(ref); runSelection(s, pop, mu, os, orc); }
-			else if(ind == "hvnoref"){ IndicatorBasedSelection<HypervolumeIndicator> s; runSelection(s, pop, mu, os, orc); }
-			else if(ind == "crowd"){ IndicatorBasedSelection<CrowdingDistance> s; runSelection(s, pop, mu, os, orc); }
-			else if(ind == "eps"){ IndicatorBasedSelection<AdditiveEpsilonIndicator> s; runSelection(s, pop, mu, os, orc); }
+			if(hvr){ IndicatorBasedSelection<HypervolumeIndicator> s; s.indicator().setReference(given); runSelection(s, pop, mu, os, orc, true); }
+			else if(ind == "hv"){ IndicatorBasedSelection<HypervolumeIndicator> s; s.indicator().setReference(ref); runSelection(s, pop, mu, os, orc, true); }
+			else if(ind == "hvnoref"){ IndicatorBasedSelection<HypervolumeIndicator> s; runSelection(s, pop, mu, os, orc, m == 2); }
+			else if(ind == "crowd"){ IndicatorBasedSelection<CrowdingDistance> s; runSelection(s, pop, mu, os, orc, true); }
+			else if(ind == "eps"){ IndicatorBasedSelection<AdditiveEpsilonIndicator> s; runSelection(s, pop, mu, os, orc, true); }
 			else if(ind == "nsga3"){ IndicatorBasedSelection<NSGA3Indicator> s; s.indicator().init(m, std::max<std::size_t>(mu, m), rng); runSelection(s, pop, mu, os, orc); }
 			else { std::cout << "bad-op\n"; continue; }
 		}else if(t[0] == "elit" && parseInts(t, 1, a) && a.size() >= 2 && a.size() == 2 + (std::size_t)a[1]){
